@@ -43,6 +43,14 @@ Audit strata (send side, other blocking points, which timeout governs):
            EHLO -> 500 -> HELO stalled; every recipient refused yet DATA answered 354 (end of the empty message
            stalled); LMTP RSET after a per-recipient failure; idle_timeout=T itself (client gone after idle T plus a
            QUIT that is or is not answered; HTTP: idle connection closed).
+  tls-idle encrypted re-used connection (STARTTLS, and tls_immediately): message 1 is delivered, then -- at the instant the
+           client starts its has_reply_waiting() probe for message 2, the one client call the relay makes outside any
+           Timeout scope -- the next hop writes BELOW the TLS layer (it does its TLS with ssl.MemoryBIO/SSLObject on the
+           raw socket, vf.c14_downstream.BioTlsSocket): part of a record header / a header only / header + part of the
+           body of an application-data record, 1-4 bytes of garbage, a clear-text line (not a record), or one complete
+           valid NON-application record (a TLS 1.3 post-handshake CertificateRequest, which the client's TLS layer
+           consumes and answers without handing anything up) -- then silence.  Attempt 2 must end with a transient
+           failure within the chain.  'fd readable' is not 'application data available' on TLS.
   split    'which timeout governs': only the timeout documented for the stalled step is T, the others are 1000 s
            (relay: connect -> connect_timeout; command replies, STARTTLS handshake, AUTH -> command_timeout;
            message send and end-of-data reply -> data_timeout; banner and immediate-TLS handshake: connect and
@@ -173,7 +181,7 @@ REQUIRED_HITS = ['http-reuse-judged', 'relay-reuse-judged', 'relay-probe-judged'
                  'relay-stall-judged', 'relay-trickle-judged', 'relay-error-class-checked',
                  'relay-client-greenlet-checked', 'pipe-stall-judged', 'http-stall-judged',
                  'control-succeeded', 'server-write-stall-judged', 'relay-send-stall-judged',
-                 'idle-expiry-judged', 'http-client-greenlet-checked', 'mx-dns-stall-judged', 'split-timeouts-judged']
+                 'idle-expiry-judged', 'relay-tls-idle-probe-judged', 'http-client-greenlet-checked', 'mx-dns-stall-judged', 'split-timeouts-judged']
 SHARDS = {'quick': 4, 'thorough': 16}
 BUDGET = {'quick': 50, 'thorough': 600}
 
@@ -708,19 +716,28 @@ def _mk_relay(sub, script, T):
     lmtp = sub['proto'] == 'lmtp'
     stage = sub['stage']
     stages = {stage, (sub.get('second') or {}).get('stage')}
-    want_tls = bool(sub.get('tls')) or bool(stages & {'starttls', 'tlshandshake', 'tls-immediate-handshake'})
-    imm = 'tls-immediate-handshake' in stages
+    below = 'tls-idle-probe' in stages      # encrypted connection whose peer later writes BELOW the TLS layer
+    want_tls = bool(sub.get('tls')) or below or bool(stages & {'starttls', 'tlshandshake', 'tls-immediate-handshake'})
+    imm = 'tls-immediate-handshake' in stages or (below and sub.get('tls_mode') == 'immediate')
     want_auth = 'auth' in stages
+    sctx = tls.server_context() if want_tls else None
+    cctx = tls.client_context()
+    if below:
+        # lets the next hop produce a complete non-application record later (post-handshake CertificateRequest)
+        import ssl as _ssl
+        sctx.verify_mode = _ssl.CERT_OPTIONAL
+        sctx.load_verify_locations(tls.cert_files()[0])
+        cctx.post_handshake_auth = True
     ds = Downstream14(script, lmtp=lmtp, pipelining=sub['pipelining'],
-                      tls_context=tls.server_context() if want_tls else None, tls_immediately=imm,
+                      tls_context=sctx, tls_immediately=imm,
                       auth=want_auth, deaf=bool(sub.get('tls')),
                       small_buffers=SMALL_SNDBUF if sub.get('small_buffers') else None,
-                      lenient_data='empty-data-eod' in stages)
+                      lenient_data='empty-data-eod' in stages, bio_tls=below)
     ds.probe_log = []
     ds.push_on_probe = True
     cn, cm, da = relay_timeouts(sub, T)
     kw = dict(socket_creator=ds.creator, connect_timeout=cn, command_timeout=cm, data_timeout=da,
-              ehlo_as='relay.c14.test', context=tls.client_context())
+              ehlo_as='relay.c14.test', context=cctx)
     if imm:
         kw['tls_immediately'] = True
     if want_auth:
@@ -774,7 +791,9 @@ def _observe_probe(c, ds):
 
 
 def _probe_saw_fragment(ds):
-    return any(e['waiting'] for e in ds.probe_log)
+    # (put on the wire at the instant a probe began: that probe had it in front of it, whatever it then did --
+    # returned, raised, or never came back)
+    return any(e['waiting'] or e.get('fragment_put_on_the_wire_when_the_probe_began') for e in ds.probe_log)
 
 
 def _attempt(relay, env, out, started=None):
@@ -911,10 +930,14 @@ def run_relay_case(sub):
     stage, pattern = sub['stage'], sub['pattern']
     second = sub.get('second')
     act1 = _action(stage, pattern, T, rnd)
-    act2 = _action(second['stage'], second.get('pattern', 'stall'), T, rnd) if second else None
+    if second and second['stage'] == 'tls-idle-probe':
+        frag = TLS_IDLE_FRAGMENTS[second['pattern']]
+        act2 = ('raw-below-tls', frag(rnd) if callable(frag) else frag)
+    else:
+        act2 = _action(second['stage'], second.get('pattern', 'stall'), T, rnd) if second else None
 
     reuse = bool(second) and second.get('mode') == 'reuse'
-    probe = reuse and second['stage'] == 'idle-probe'
+    probe = reuse and second['stage'] in ('idle-probe', 'tls-idle-probe')
     holder = {}
 
     def script(ctx, st):
@@ -992,6 +1015,11 @@ def run_relay_case(sub):
             judged = _judge_relay_attempt(sub, res, T, ds, g2, out2, clients, second['stage'],
                                           second.get('pattern', 'stall'), 'second')
             res.detail['second_used_new_client'] = len(clients) > len(before)
+            if second['stage'] == 'tls-idle-probe':
+                res.detail['bytes_written_below_the_tls_layer_while_idle'] = ds.below_tls_bytes
+                res.detail['connection_encrypted'] = [c.tls for c in ds.conns]
+                if judged and reuse and ds.below_tls_bytes is not None:
+                    res.hits.append('relay-tls-idle-probe-judged')
             res.detail['connections_to_next_hop'] = ds.connects
             if reuse and judged:
                 if len(clients) > len(before) or ds.connects > 1:
@@ -1019,6 +1047,18 @@ def run_relay_case(sub):
             except Exception:
                 pass
 
+
+# what the next hop puts on an idle ENCRYPTED connection, below the TLS layer, before it goes silent
+TLS_IDLE_FRAGMENTS = {
+    'record-header-only': b'\x17\x03\x03\x00\x40',
+    'record-header-and-part-of-body': lambda rnd: b'\x17\x03\x03\x00\x40' + bytes(rnd.randrange(256) for _ in range(rnd.randrange(1, 0x40))),
+    'part-of-record-header': lambda rnd: b'\x17\x03\x03\x00\x40'[:rnd.randrange(1, 5)],
+    'complete-non-application-record': None,          # a TLS 1.3 post-handshake CertificateRequest (consumed silently)
+    'garbage-not-a-record': lambda rnd: bytes(rnd.randrange(32) for _ in range(rnd.randrange(1, 5))),
+    'garbage-line': b'421 4.4.2 in clear text on an encrypted connection\r\n',
+}
+for _p in TLS_IDLE_FRAGMENTS:
+    _PEER_DID[_p] = 'wrote %s below the TLS layer of the idle connection and went silent' % _p
 
 PROBE_FRAGMENTS = {'unsolicited-partial-line': b'421 4.4.2 idle, clos',
                    'unsolicited-continuation-line': b'421-4.4.2 idle for too long\r\n421-closing the connection so\r\n'}
@@ -2298,7 +2338,8 @@ def _key(sub):
     T = sub.get('T_nominal', sub['T'])
     return (sub['side'], sub.get('proto'), sub['stage'], sub['pattern'], sub.get('pipelining'), sub.get('nrcpt'),
             bool(sub.get('tls')), bool(sub.get('idle')),
-            (sec['stage'], sec.get('mode')) if sec else None, bool(sub.get('split')), bool(sub.get('big')), T)
+            (sec['stage'], sec.get('mode'), sec.get('pattern')) if sec else None, sub.get('tls_mode'),
+            bool(sub.get('split')), bool(sub.get('big')), T)
 
 
 def all_subcases(tier, seed):
@@ -2393,6 +2434,14 @@ def all_subcases(tier, seed):
                     for idle in (None, RELAY_IDLE):
                         add(stall, side='relay', proto=proto, pipelining=pl, nrcpt=1, stage='probe-before-mail',
                             pattern=frag, T=T, idle=idle)
+                # encrypted re-used connection: bytes below the TLS layer while idle, then the next message
+                for pat in sorted(TLS_IDLE_FRAGMENTS):
+                    add(stall, side='relay', proto=proto, pipelining=pl, nrcpt=1, stage='none', pattern='stall',
+                        T=T, idle=RELAY_IDLE, second={'stage': 'tls-idle-probe', 'mode': 'reuse', 'pattern': pat})
+                    if pl and proto == 'smtp':
+                        add(stall, side='relay', proto=proto, pipelining=pl, nrcpt=1, stage='none', pattern='stall',
+                            T=T, idle=RELAY_IDLE, tls_mode='immediate',
+                            second={'stage': 'tls-idle-probe', 'mode': 'reuse', 'pattern': pat})
                 for s2 in (('mail', 'eod0', 'rset', 'idle-probe') if tier == 'quick' else ('idle-probe',)):
                     sec = {'stage': s2, 'mode': 'reuse'}
                     if s2 == 'idle-probe':
